@@ -2,7 +2,7 @@
     Only statements, each closed by [exact <lemma>] (or a short wrapper), with [Print Assumptions]. *)
 From Coq Require Import List ZArith NArith Bool Lia.
 From DH Require Import Lib.CheckLib Model.Store Proofs.StoreProofs Model.DsManager Model.Gc Proofs.DsManagerProofs Proofs.GcProofs
-     Proofs.DsRefine Check.C07Check Proofs.C07CheckProofs.
+     Proofs.DsRefine Proofs.DsCrash Check.C07Check Proofs.C07CheckProofs.
 Import ListNotations.
 Open Scope Z_scope.
 
@@ -252,3 +252,53 @@ Example C07_ex_agree :
   agree v_fixed (ex_case (OGet [(1, c_w 1)] false)) = true /\ spec_ok (ex_case (OGet [(1, c_w 1)] false)) = true
   /\ agree v_current (ex_case (OGet [(1, c_w 1)] false)) = false.
 Proof. vm_compute. auto. Qed.
+
+(** The full invariant (registry invariant + no data without a record or a deleted mark + dataset entities = records)
+    holds along every crash-free history of every variant that does not reconcile, the pinned one included. *)
+Theorem C07_full_inv_crash_free : forall v ops,
+  v_reconcile v = false -> crash_free ops -> hfull (run v ops hub0).
+Proof. intros v ops Hrc C. apply hfull_run_nocrash; [exact Hrc | exact C | exact hfull0]. Qed.
+Print Assumptions C07_full_inv_crash_free.
+
+(** C07_crash, exact characterisation for the pinned tree (and for every variant that does not reconcile the dataset
+    entities, whether or not the deleted set is persisted with the record removal): in every state reached by a
+    crash-free history, for every manager operation that is not refused / a no-op and EVERY hook index k, the
+    restarted process answers all queries as before or as after the operation IF AND ONLY IF the hook is not one of
+    create.afterRecord, rename.afterMove, rename.afterOldMeta, delete.afterRecord, delete.afterDeletedSet.
+    (At those five the dataset list already differs from the state before and the live dataset entities still differ
+    from the state after.)  Atomic: create.afterNextId (= before), create.afterMeta, rename.afterNewMeta, delete.afterMeta. *)
+Theorem C07_crash_exact : forall v ops m k,
+  v_reconcile v = false -> crash_free ops ->
+  let h := run v ops hub0 in
+  fst (plan v m h) <> [] ->
+  (atomic v h m k <-> hook_bad m k = false).
+Proof. intros v ops m k Hrc C h. apply crash_exact; [exact Hrc | now apply C07_full_inv_crash_free]. Qed.
+Print Assumptions C07_crash_exact.
+
+(** a refused or no-op operation reaches no hook: the crash is a plain restart, in every variant and state *)
+Theorem C07_crash_noop : forall v h m k, fst (plan v m h) = [] -> atomic v h m k.
+Proof. exact crash_noop_atomic. Qed.
+Print Assumptions C07_crash_noop.
+
+(** variants that reconcile the dataset entities on restart, in every reachable state (crashes included): every hook
+    point is atomic, except delete.afterRecord when the deleted set is persisted in a separate step (F07a alone) ... *)
+Theorem C07_crash_reconcile : forall v ops m k,
+  v_reconcile v = true ->
+  (v_del_atomic v = false -> ~ (exists n, m = MDelete n) \/ k <> 1%nat) ->
+  atomic v (run v ops hub0) m k.
+Proof.
+  intros v ops m k Hrc Hex. apply crash_atomic_reconcile; [exact Hrc | | exact Hex].
+  assert (H : hinv (run v ops hub0)) by (apply hinv_run; exact hinv0). apply H.
+Qed.
+Print Assumptions C07_crash_reconcile.
+(** ... and that point is not atomic once the doomed dataset holds something a lookup can see *)
+Theorem C07_crash_refuted_delete_1_reconcile : ~ atomic (mkv false true) h_w (MDelete 2) 1.
+Proof. exact crash_refuted_delete_1_reconcile. Qed.
+Print Assumptions C07_crash_refuted_delete_1_reconcile.
+
+(** non-vacuity of the hypotheses of C07_crash_exact *)
+Example C07_ex_crash_exact_hyps :
+  crash_free [OMop (MCreate 1); OMop (MCreate 2); OWrite 1 [e_w 1]; OWrite 2 [e_w 2]]
+  /\ fst (plan v_current (MDelete 2) h_w) <> [] /\ fst (plan v_current (MCreate 3) h_w) <> []
+  /\ fst (plan v_current (MRename 2 3) h_w) <> [].
+Proof. exact crash_exact_nonvacuous. Qed.
